@@ -106,20 +106,6 @@ Proof.
 Qed.
 
 (** ---- sequences of validated changes: a removed id never becomes a member again ---- *)
-Inductive req := RAdd (m : member) | RRemove (m : member).
-Definition cluster : Type := members * members.
-Definition apply_req (c : cluster) (r : req) : cluster :=
-  let '(applied, removed) := c in
-  match r with
-  | RAdd m => match validate_change_membership applied removed 0 (Some m) with
-              | VOk => (apply_add applied m, removed)
-              | _ => c
-              end
-  | RRemove m => match validate_change_membership applied removed 1 (Some m) with
-                 | VOk => apply_remove applied removed m
-                 | _ => c
-                 end
-  end.
 Definition disjoint_ids (c : cluster) : Prop :=
   forall x, In x (fst c) -> is_exist (snd c) (m_id x) = false.
 
